@@ -320,9 +320,8 @@ class GHE(BaseGHE):
             else:
                 n_hours = len(q_dot)
             q_dot = -1.0 * np.array(q_dot)  # Convert loads to rejection
-            # print("Times:",self.times)
-            if len(self.times) == 0:
-                self.times = np.arange(1, n_hours + 1, 1)
+            # always rebuild the hourly time axis: self.times may hold the hybrid axis of an earlier simulate() call
+            self.times = np.arange(1, n_hours + 1, 1)
             t = self.times
             self.loading = q_dot
 
